@@ -148,31 +148,34 @@ def image(types, converters):
 
 def use_package(types, converters):
     """What an application does before anybody looks at the classes again: several converters (one of them its own),
-    messages parsed and written, objects built, compared and changed."""
+    messages parsed and written, objects built, compared and changed.  Every step is best effort (an evolved metamodel
+    may have changed any of the classes used here); only the state of the classes afterwards matters."""
     import cattrs
+
+    def attempt(fn):
+        try:
+            return fn()
+        except Exception:  # noqa: BLE001
+            return None
     c1 = converters.get_converter()
     c2 = converters.get_converter(cattrs.Converter(detailed_validation=False))
-    msgs = [(types.InitializeRequest, {"jsonrpc": "2.0", "id": 1, "method": "initialize", "params": {"capabilities": {}, "processId": None, "rootUri": None}}),
-            (types.HoverResponse, {"jsonrpc": "2.0", "id": 1, "result": {"contents": "x", "range": {"start": {"line": 0, "character": 0}, "end": {"line": 0, "character": 1}}}}),
-            (types.DefinitionResponse, {"jsonrpc": "2.0", "id": 2, "result": []}),
-            (types.ExitNotification, {"jsonrpc": "2.0", "method": "exit"}),
-            (types.FoldingRange, {"startLine": 1, "endLine": 2, "kind": "custom"}),
-            (types.CreateFile, {"uri": "file:///a", "kind": "create"})]
+    msgs = [("InitializeRequest", {"jsonrpc": "2.0", "id": 1, "method": "initialize", "params": {"capabilities": {}, "processId": None, "rootUri": None}}),
+            ("HoverResponse", {"jsonrpc": "2.0", "id": 1, "result": {"contents": "x", "range": {"start": {"line": 0, "character": 0}, "end": {"line": 0, "character": 1}}}}),
+            ("DefinitionResponse", {"jsonrpc": "2.0", "id": 2, "result": []}),
+            ("ExitNotification", {"jsonrpc": "2.0", "method": "exit"}),
+            ("FoldingRange", {"startLine": 1, "endLine": 2, "kind": "custom"}),
+            ("CreateFile", {"uri": "file:///a", "kind": "create"})]
     for conv in (c1, c2, c1):
-        for cls, data in msgs:
-            try:
-                obj = conv.structure(data, cls)
-                conv.unstructure(obj, cls)
-            except Exception:  # noqa: BLE001  (judged elsewhere; here only the classes afterwards matter)
-                pass
-    p = types.Position(line=1, character=2)
-    p < types.Position(line=1, character=3)
-    p.line = 5
-    for bad in (lambda: types.Position(line=-1, character=0), lambda: types.CreateFile(uri="u", kind="other")):
-        try:
-            bad()
-        except Exception:  # noqa: BLE001
-            pass
+        for name, data in msgs:
+            cls = getattr(types, name, None)
+            if cls is not None:
+                attempt(lambda: conv.unstructure(conv.structure(data, cls), cls))
+    p = attempt(lambda: types.Position(line=1, character=2))
+    if p is not None:
+        attempt(lambda: p < types.Position(line=1, character=3))
+        attempt(lambda: setattr(p, "line", 5))
+    attempt(lambda: types.Position(line=-1, character=0))
+    attempt(lambda: types.CreateFile(uri="u", kind="other"))
 
 
 def main(argv):
